@@ -1716,7 +1716,9 @@ func c01AuditSizes(r *rand.Rand, tier string) []c01AuditCase {
 		}
 		add(fmt.Sprintf("list of depth %d", d), *l)
 	}
-	for _, d := range []int{8, 20, 45, 90, c01AuditThorough(tier, 150, 400)} {
+	// (the indented text of a tree grows with the square of its depth: at depth 400 it was 240 MB in each library and the
+	// child, which holds five variants of it, ran into its address-space limit -- a limit of the harness, not of the encoder)
+	for _, d := range []int{8, 20, 45, 90, c01AuditThorough(tier, 150, 200)} {
 		for k := 0; k < c01AuditThorough(tier, 2, 10); k++ {
 			add(fmt.Sprintf("tree of depth %d", d), c01AuditTree(r, d))
 		}
